@@ -344,6 +344,8 @@ class pyBQM:
         return v
 
     def resize(self, n: int):
+        if n < 0:
+            raise ValueError("n must be non-negative")
         while n > self.num_variables():
             self.add_variable()
         while n < self.num_variables():
